@@ -264,7 +264,7 @@ func vfC36Types() (execs []string, sinks []string, funcs []string, err error) {
 		}
 		return os.Open(p)
 	})
-	info := &types.Info{Types: map[ast.Expr]types.TypeAndValue{}, Defs: map[*ast.Ident]types.Object{}}
+	info := &types.Info{Types: map[ast.Expr]types.TypeAndValue{}, Defs: map[*ast.Ident]types.Object{}, Uses: map[*ast.Ident]types.Object{}}
 	conf := types.Config{Importer: imp}
 	if _, e := conf.Check("github.com/sourcegraph/zoekt/web", fset, files, info); e != nil {
 		return nil, nil, nil, e
@@ -402,6 +402,13 @@ func TestVerifC36Gen(t *testing.T) {
 	}
 	vfEmit(map[string]any{"kind": "gen", "file": "WebFuncs.v", "text": ftext})
 	info["funcs"] = finfo
+	// ---- the bodies of the template functions in the Go subset of Model/WebFuncsAst.v
+	btext, binfo, err := vfC36BodiesGenText()
+	if err != nil {
+		t.Fatalf("bodies translator: %v", err)
+	}
+	vfEmit(map[string]any{"kind": "gen", "file": "WebFuncBodies.v", "text": btext})
+	info["func_bodies"] = binfo
 	info["execs"] = len(execs)
 	info["sinks"] = len(sinks)
 	info["url_slots"] = len(hrefs)
